@@ -33,6 +33,9 @@ from . import pdu
 
 NO_DATASET = 0x0101
 
+# fragment size used when the maximum PDU length in force is 0, i.e. "no limit" (PS3.8 D.1)
+NO_LIMIT_PDU_LENGTH = 65536
+
 PRIORITY_LOW = 0x0002
 PRIORITY_MEDIUM = 0x0000
 PRIORITY_HIGH = 0x0001
@@ -75,7 +78,7 @@ def fragment(data_set, max_pdu_length, normal, last):
     :yield: tuple of bytes: fragment and its code
     :rtype: Tuple[bytes,int]
     """
-    maxsize = max_pdu_length - 6
+    maxsize = (max_pdu_length or NO_LIMIT_PDU_LENGTH) - 6
     for chunk, has_next in chunks(data_set, maxsize):
         yield chunk, normal if has_next else last
 
@@ -95,7 +98,7 @@ def fragment_file(fp, max_pdu_length, normal, last):
     :yield: tuple of bytes: fragment and its code
     :rtype: Tuple[bytes,int]
     """
-    maxsize = max_pdu_length - 6
+    maxsize = (max_pdu_length or NO_LIMIT_PDU_LENGTH) - 6
     while True:
         chunk = fp.read(maxsize)
         if not chunk:
